@@ -60,3 +60,26 @@ extern "C" void h_pipe() {
     }
     VP_REACH("pipe");
 }
+
+// second life: cleanup() then initialize() again on the same object; what is appended in the second life is delivered like in the first
+extern "C" void h_pipe_relife() {
+    sink_len = 0; in_cb = 0; overlap = 0;
+    AsyncPipe pipe;
+    AsyncPipe::Config cfg; cfg.buff_size = BUFSZ; cfg.buff_min_num = 1; cfg.buff_max_num = MAXNUM; cfg.interval = 1000;
+    auto cb = [](const void *p, size_t n) { if (in_cb) overlap = 1; in_cb = 1; for (size_t i = 0; i < n && sink_len < 32; i++) sink[sink_len++] = ((const unsigned char *)p)[i]; in_cb = 0; };
+    pipe.setCallback(cb);
+    static const unsigned char A[2] = {1, 2}, B2[3] = {7, 8, 9};
+    VP_ASSERT(pipe.initialize(cfg), "initialize");
+    pipe.append(A, 2);
+    pipe.cleanup();
+    VP_ASSERT(sink_len == 2 && sink[0] == 1 && sink[1] == 2, "first life: everything appended before cleanup has been delivered when cleanup returns");
+    VP_ASSERT(pipe.initialize(cfg), "initialize again after cleanup");
+    pipe.setCallback(cb);                                             // cleanup() forgets the callback: it is registered again, as log::AsyncSink does on every enable
+    unsigned n = nondet_uchar(); VP_ASSUME(n >= 1 && n <= 3);
+    pipe.append(B2, n);
+    pipe.cleanup();                                                   // a hang here is reported by the engine as a deadlock
+    VP_ASSERT(!overlap, "sink callbacks never overlap one another");
+    VP_ASSERT(sink_len == 2 + n, "second life: everything appended before cleanup has been delivered when cleanup returns - nothing lost, nothing from the first life repeated");
+    for (unsigned i = 0; i < n; i++) VP_ASSERT(sink[2 + i] == B2[i], "second life: delivered in order");
+    VP_REACH("pipe_relife");
+}
